@@ -135,7 +135,12 @@ func runExpect(r *common.Run, ops []string, class string) {
 	}
 	feedOpen := func(k byte) {
 		nOpen++
-		go rs.Feed([]byte(fmt.Sprintf(`<iq xmlns="jabber:client" type="set" id="open%d" from="%s" to="me@example.net/h"><open xmlns="http://jabber.org/protocol/ibb" sid="S%c" block-size="16" stanza="iq"/></iq>`, nOpen, expPeer, k)))
+		// the peer ends whatever stream still has that session id before it opens a new one with it
+		// (answered item-not-found when there is none): a library that refuses an open request for
+		// an id in use and one that replaces the older stream then behave alike (round E, asked for
+		// by the C15 builder)
+		go rs.Feed([]byte(fmt.Sprintf(`<iq xmlns="jabber:client" type="set" id="cl%d" from="%s" to="me@example.net/h"><close xmlns="http://jabber.org/protocol/ibb" sid="S%c"/></iq>`, nOpen, expPeer, k) +
+			fmt.Sprintf(`<iq xmlns="jabber:client" type="set" id="open%d" from="%s" to="me@example.net/h"><open xmlns="http://jabber.org/protocol/ibb" sid="S%c" block-size="16" stanza="iq"/></iq>`, nOpen, expPeer, k)))
 	}
 	nCalls := 0
 	for _, op := range ops {
